@@ -14,6 +14,8 @@ CHECKS = {
          "strings, template strings through the real parser for Maven, PyPI and RubyGems", "§7 C01, §11"),
  "C02": ("differential against transcriptions of SemVer 2.0 §11 / NuGet SemVer2 (npm, Cargo, Go, NuGet) and packaging's _cmpkey (PyPI) over "
          "template fields; Maven and RubyGems orderings are not decided (no transcription built)", "§7 C02, §11"),
+ "C03": ("differential against transcriptions of node-semver 7 (desugaring of every comparator to primitive bounds + prerelease admission rule), PEP 440 specifier "
+         "clauses on final releases and Maven VersionRange over structured requirement templates; Cargo VersionReq is not decided", "§7 C03, §11"),
  "C04": ("every implicit panic check and loop bound on every feasible path of the text entry points of util/semver (9 systems), util/pypi and the "
          "PyPI marker parser, inputs = all byte strings up to the stated lengths", "§7 C04, §11"),
  "C05": ("PyPI resolver only: client-unchanged and ask-twice clauses on a universe with symbolic marker thresholds (whole Resolve executed "
@@ -33,6 +35,8 @@ CHECKS = {
  "C14": ("the real LocalClient against a map-based reference over AddVersion histories with symbolic attributes", "§7 C14, §11"),
  "C15": ("partial: interpolation terminates, leaves and reports unresolved placeholders (symbolic dictionaries incl. cycles; arbitrary bytes); property precedence lemmas. Equality with Maven's model builder is not decided", "§7 C15, §11"),
  "C16": ("ParseDependency and CanonPackageName against the decomposition known by construction of PEP 508 strings; marker parser+evaluator against a transcription of packaging's rule", "§7 C16, §11"),
+ "C18": ("partial, sequential: alias split (npm:name@range) in flattenNPMDeps and the bundle mapping of npmRequirements over symbolic names and bundle trees; "
+         "the gRPC round trip and the goroutine-interleaving clauses are not decided", "§7 C18, §11"),
  "C19": ("order laws and equality characterisation of attr.Set.Compare, clone independence, versiontest text round trip", "§7 C19, §11"),
 }
 
